@@ -13,6 +13,13 @@ import nvlib
 from nvlib import VERIF, log
 
 
+# quick-tier multiplier of the stream sizes written in the property modules (they were sized for ~10 s checks;
+# the budget of a quick check is a few minutes)
+QUICK_K = int(os.environ.get("NV_QUICK_SCALE", "3"))
+# thorough-tier multiplier (the sizes in the modules give ~20 s runs; the thorough budget is tens of minutes)
+THOROUGH_K = int(os.environ.get("NV_THOROUGH_SCALE", "8"))
+
+
 class Ctx:
     def __init__(self, prop, tier, seed):
         self.prop, self.tier, self.seed = prop, tier, seed
@@ -21,13 +28,25 @@ class Ctx:
         self.harness = None
         self.driver = None
         self.notes = {}
+        self.boost = False
+        self.quick_k = QUICK_K
         self.tmp = os.path.join(nvlib.BUILD, "tmp", "%s_%d" % (prop, os.getpid()))
 
     def quick(self):
         return self.tier == "quick"
 
     def scale(self, q, t):
-        return q if self.tier == "quick" else t
+        """case count of a stream: q x QUICK_K in the quick tier (never above t), t in the thorough tier.  When a file
+        the property is anchored in differs from the tree the models were written for (self.boost), the quick tier
+        spends three times more again."""
+        if self.tier != "quick":
+            if isinstance(t, (int, float)) and isinstance(q, (int, float)) and t > q:
+                return type(t)(t * THOROUGH_K)
+            return t
+        if isinstance(q, (int, float)) and isinstance(t, (int, float)) and t > q:
+            k = self.quick_k * (3 if self.boost else 1)
+            return type(q)(min(t * THOROUGH_K, k * q))
+        return q
 
     def tmpdir(self):
         os.makedirs(self.tmp, exist_ok=True)
@@ -66,6 +85,7 @@ def main():
     mod = importlib.import_module("props." + prop)
     seed = nvlib.seed_from_env()
     ctx = Ctx(prop, a.tier, seed)
+    ctx.quick_k = int(os.environ.get("NV_QUICK_SCALE", getattr(mod, "QUICK_K", QUICK_K)))   # a module sized for minutes sets QUICK_K = 1
     t0 = time.time()
     broken = []      # broken obligations (proof / audit / correspondence)
     info = {"phases": {}}
@@ -78,6 +98,12 @@ def main():
         # 2. translate
         tr = nvlib.run_translator(ctx.repo)
         info["translator"] = tr
+        changed = nvlib.anchors_changed(prop)
+        info["anchors_changed"] = changed
+        if changed:
+            ctx.boost = True
+            log("%s: %d anchor file(s) differ from the tree the models follow (%s%s): quick-tier streams are enlarged" % (
+                prop, len(changed), ", ".join(changed[:4]), " ..." if len(changed) > 4 else ""))
     except nvlib.BuildError as e:
         log(str(e))
         print("CHECK-ERROR property=%s cannot build /repo working tree: %s" % (prop, str(e).split("\n")[0]))
@@ -219,6 +245,7 @@ def main():
         "phases": info["phases"],
         "translator_files": info.get("translator", {}).get("files", []),
         "leanchecker": info.get("leanchecker", {}),
+        "anchor_files_changed": info.get("anchors_changed", []),
     }
     if discharged == 0:
         # broken proof: keep the evidence schema-valid through the generic keys
